@@ -8,7 +8,7 @@ from vlib.sim import Sim
 
 PEER_EVENTS = [
     ['open', 'valid', 90], ['open', 'h0', 0], ['open', 'h3', 3], ['open', 'badver', 90], ['open', 'badas', 90], ['open', 'badas4', 90],
-    ['open', 'h1', 1], ['open', 'h2', 2], ['ka'], ['upd'], ['notif', 'ver'], ['notif', 'other'], ['rr'],
+    ['open', 'h1', 1], ['open', 'h2', 2], ['ka'], ['upd'], ['upd', 'max'], ['notif', 'ver'], ['notif', 'other'], ['rr'],
     ['bad_marker'], ['bad_len'], ['bad_type'], ['close'],
 ]
 DEFAULT_CFG = {'hold': 180, 'idle_hold': 30, 'connect_retry': 60}
@@ -27,6 +27,13 @@ def encode_event(sim, ev, n=0):
         return ss.peer_open(sim, hold=hold)
     if k == 'ka':
         return rc.keepalive()
+    if k == 'upd' and len(ev) > 1 and ev[-1] == 'max':
+        # a well-formed UPDATE of exactly 4096 octets, the largest message RFC 4271 allows (filled up with an unknown
+        # optional transitive attribute)
+        pfx = '10.%d.%d.0/24' % ((n >> 8) & 0xFF, n & 0xFF)
+        attrs = rc.a_origin(0) + rc.a_as_path([(2, [65002])], True) + rc.a_next_hop('10.0.0.2')
+        room = 4096 - 19 - 4 - len(attrs) - 4 - 4
+        return rc.update(attrs=attrs + rc.a_unknown(99, b'\x5a' * room, flags=0xC0, ext=True), nlri=rc.prefix4(pfx))
     if k == 'upd':
         return ss.marked_update(n & 0xFFFF)[0]
     if k == 'notif':
